@@ -58,10 +58,97 @@ def flag_ops(P, u):
     return out
 
 
+def _fold_int(e, env):
+    """value of a side-effect free integer / boolean expression over the names in env (None when it uses anything else)"""
+    if isinstance(e, ast.Constant) and isinstance(e.value, (int, bool)):
+        return e.value
+    if isinstance(e, ast.Name):
+        return env.get(e.id)
+    if isinstance(e, ast.Subscript) and isinstance(e.value, ast.Name) and isinstance(e.slice, ast.Name):
+        return env.get('%s[%s]' % (e.value.id, e.slice.id))
+    if isinstance(e, ast.UnaryOp):
+        v = _fold_int(e.operand, env)
+        if v is None:
+            return None
+        return {ast.Invert: lambda x: ~x, ast.USub: lambda x: -x, ast.Not: lambda x: not x, ast.UAdd: lambda x: x}[type(e.op)](v)
+    if isinstance(e, ast.BinOp):
+        a, b = _fold_int(e.left, env), _fold_int(e.right, env)
+        if a is None or b is None:
+            return None
+        try:
+            return {ast.LShift: lambda x, y: x << y, ast.RShift: lambda x, y: x >> y, ast.BitAnd: lambda x, y: x & y, ast.BitOr: lambda x, y: x | y,
+                    ast.BitXor: lambda x, y: x ^ y, ast.Add: lambda x, y: x + y, ast.Sub: lambda x, y: x - y, ast.Mult: lambda x, y: x * y,
+                    ast.Pow: lambda x, y: x ** y if 0 <= y < 64 else None, ast.FloorDiv: lambda x, y: x // y, ast.Mod: lambda x, y: x % y}[type(e.op)](a, b)
+        except (KeyError, ZeroDivisionError, ValueError):
+            return None
+    if isinstance(e, ast.Compare) and len(e.ops) == 1:
+        a, b = _fold_int(e.left, env), _fold_int(e.comparators[0], env)
+        if a is None or b is None:
+            return None
+        op = {ast.Eq: lambda x, y: x == y, ast.NotEq: lambda x, y: x != y, ast.Gt: lambda x, y: x > y, ast.GtE: lambda x, y: x >= y, ast.Lt: lambda x, y: x < y,
+              ast.LtE: lambda x, y: x <= y}.get(type(e.ops[0]))
+        return None if op is None else op(a, b)
+    if isinstance(e, ast.Call) and isinstance(e.func, ast.Name) and e.func.id in ('bool', 'int') and len(e.args) == 1:
+        v = _fold_int(e.args[0], env)
+        return None if v is None else (bool(v) if e.func.id == 'bool' else int(v))
+    return None
+
+
+def _bit_helpers(ctx, rr):
+    """flag / unflag / test of the node modules set, clear and read exactly bit `pos` of the register: decided by folding their one
+    expression for every position of a byte and three register values"""
+    P = ctx.P
+    n = 0
+    for mod in sorted({P.class_mod[TRIE_NODE], P.class_mod[LINK_NODE]}):
+        for name in ('flag', 'unflag', 'test'):
+            u = P.funcs.get((mod, name))
+            if u is None:
+                continue
+            ps = u.call_params
+            if len(ps) != 3:
+                raise AnalysisError('R-ACCESSOR-TABLE: bit helper %s.%s does not take (data, register, pos)' % (mod, name))
+            D, R, B = ps
+            body = [s_ for s_ in u.node.body if not (isinstance(s_, ast.Expr) and isinstance(s_.value, ast.Constant))]
+            bad = None
+            for old in (0x00, 0xFF, 0xA5):
+                for pos in range(8):
+                    env = {B: pos, '%s[%s]' % (D, R): old}
+                    got = None
+                    # explaining locals in front of the one effective statement (`mask = 1 << pos`)
+                    stmts_ = list(body)
+                    while len(stmts_) > 1 and isinstance(stmts_[0], ast.Assign) and len(stmts_[0].targets) == 1 and isinstance(stmts_[0].targets[0], ast.Name):
+                        v0 = _fold_int(stmts_[0].value, env)
+                        if v0 is None:
+                            break
+                        env[stmts_[0].targets[0].id] = v0
+                        stmts_ = stmts_[1:]
+                    body_ = stmts_
+                    if len(body_) == 1 and isinstance(body_[0], ast.AugAssign) and isinstance(body_[0].target, ast.Subscript) and ast.unparse(body_[0].target) == '%s[%s]' % (D, R):
+                        v = _fold_int(body_[0].value, env)
+                        if v is not None:
+                            got = _fold_int(ast.BinOp(left=ast.Constant(value=old), op=body_[0].op, right=ast.Constant(value=v)), {})
+                    elif len(body_) == 1 and isinstance(body_[0], ast.Assign) and ast.unparse(body_[0].targets[0]) == '%s[%s]' % (D, R):
+                        got = _fold_int(body_[0].value, env)
+                    elif len(body_) == 1 and isinstance(body_[0], ast.Return) and body_[0].value is not None:
+                        got = _fold_int(body_[0].value, env)
+                    if got is None:
+                        raise AnalysisError('R-ACCESSOR-TABLE: bit helper %s.%s is not one foldable expression over (data[register], pos)' % (mod, name))
+                    want = {'flag': old | (1 << pos), 'unflag': old & ~(1 << pos) & 0xFF, 'test': bool(old & (1 << pos))}[name]
+                    if (bool(got) if name == 'test' else got) != want and bad is None:
+                        bad = (old, pos, got, want)
+            n += 1
+            rr.ob(ctx.where(u), '%s(data, register, pos) %s exactly bit pos (24 cases folded)' % (name, {'flag': 'sets', 'unflag': 'clears', 'test': 'reads'}[name]), ok=bad is None)
+            if bad is not None:
+                rr.fail(ctx.finding('R-ACCESSOR-TABLE', u, u.node, 'bit helper %s: for register value 0x%02X and pos %d it gives %r where %r is required: %s touches other flags of the '
+                                    'node (tail marks, page / crawled / rule marks) than the one it was asked for' % ((name,) + bad + (name,)), stmt='bit helper %s' % name))
+    rr.require(n, 3, 'bit helpers')
+
+
 @rule('R-ACCESSOR-TABLE')
 def accessor_table(ctx, rr):
     P = ctx.P
     CE = const_env(ctx)
+    _bit_helpers(ctx, rr)
     nfam = 0
     for cls in (TRIE_NODE, LINK_NODE):
         mod = P.class_mod[cls]
